@@ -34,6 +34,7 @@ class UserDeleteNode(ActionGroup):
         """
         super().__init__(tracks, actions=[])
         self.tracks: SolutionTracks  # Narrow type from base class
+        had_predecessor = len(self.tracks.predecessors(node)) > 0
         # delete adjacent edges
         for pred in self.tracks.predecessors(node):
             siblings = self.tracks.successors(pred)
@@ -46,16 +47,33 @@ class UserDeleteNode(ActionGroup):
                 new_track_id = self.tracks.get_track_id(pred)
                 self.actions.append(UpdateTrackIDs(tracks, sib, new_track_id))
             self.actions.append(DeleteEdge(tracks, (pred, node)))
-        for succ in self.tracks.successors(node):
+        successors = self.tracks.successors(node)
+        for succ in successors:
             self.actions.append(DeleteEdge(tracks, (node, succ)))
 
         # connect child and parent in track, if applicable
+        reconnected = None
         track_id = self.tracks.get_track_id(node)
         if track_id is not None:
             time = self.tracks.get_time(node)
             predecessor, successor = self.tracks.get_track_neighbors(track_id, time)
             if predecessor is not None and successor is not None:
                 self.actions.append(AddEdge(tracks, (predecessor, successor)))
+                reconnected = successor
+
+        # every subtree that was cut off becomes a lineage of its own; when the deleted
+        # node was a root, its first subtree keeps the lineage id
+        for index, succ in enumerate(successors):
+            if succ == reconnected or (index == 0 and not had_predecessor):
+                continue
+            self.actions.append(
+                UpdateTrackIDs(
+                    tracks,
+                    succ,
+                    self.tracks.get_track_id(succ),
+                    self.tracks.get_next_lineage_id(),
+                )
+            )
 
         # delete node
         self.actions.append(DeleteNode(tracks, node, pixels=pixels))
